@@ -3,7 +3,7 @@
    Go code on every run by the correspondence of Raft/Wire.v.run_case with the real `core` objects. *)
 From Coq Require Import List NArith ZArith.
 From BLB Require Import Lib.LTS Raft.Core Raft.Wire Raft.NodeElect Raft.NodeMono Raft.NodeLeader Raft.NodeConf Raft.Election Raft.ElectionFixed Raft.ElectionExample Raft.Mechanisms C02.Proofs.
-From BLB Require Import Raft.LogMatchLists Raft.LogMatchNode Raft.LogMatch Raft.Completeness Raft.LogMatchExample Raft.SMSafetyNode Raft.SMSafety Raft.SMSafetyExample Raft.LeaderSuffix Raft.LeaderSuffixExample.
+From BLB Require Import Raft.LogMatchLists Raft.LogMatchNode Raft.LogMatch Raft.Completeness Raft.LogMatchExample Raft.SMSafetyNode Raft.SMSafety Raft.SMSafetyExample Raft.LeaderSuffix Raft.LeaderSuffixExample Raft.CompletenessAck Raft.CompletenessVote Raft.CompletenessExample Raft.SMSafetyBound Raft.CompletenessCommit Raft.CommitExample.
 Import ListNotations.
 Open Scope N_scope.
 
@@ -341,13 +341,134 @@ Theorem leader_commits_own_suffix_nonvacuous :
 Proof. exact Raft.LeaderSuffixExample.leader_suffix_nonvacuous. Qed.
 Print Assumptions leader_commits_own_suffix_nonvacuous.
 
+(* [FULL] clause 3, leader completeness for entries acknowledged by a quorum, which is the definition of committed in the Raft paper, same
+   system and restricted alphabet as log_matching. Two moments of one run: at the first a node a is leader of term T, the
+   entry at index mi of its log has term T, and a quorum Q of node ids has acknowledged index mi in term T, each v in Q
+   being a itself or the sender of a successful AppEntsResp of term T for an index of at least mi that is in the soup.
+   Then at every later moment every node b that is leader of a term greater than T holds exactly a's first mi entries.
+   Proved by strong induction on the later term from three inductive invariants over ghost state, namely acknowledged
+   prefixes survive at the acknowledger unless a leader record of an intermediate term lacks them, a granted vote puts
+   the voter's acknowledged prefixes into the candidate's candidacy log unless such a record exists, using canGrantVote's
+   test with log matching and term monotonicity, and every leader record is backed by a quorum of such grants *)
+Theorem leader_completeness_quorum_acknowledged :
+  forall (bm : list nid) (be : N) (σ0 σ1 σ2 : sys) (sched1 sched2 : list sys_event),
+    linit σ0 ->
+    run sys sys_event (lstep (length (sy_nodes σ0)) bm be) σ0 sched1 σ1 ->
+    run sys sys_event (lstep (length (sy_nodes σ0)) bm be) σ1 sched2 σ2 ->
+    forall a mi e,
+      In a (sy_nodes σ1) -> n_role a = Leader ->
+      nth_error (p_log (n_p a)) (mi - 1) = Some e -> e_term e = p_term (n_p a) -> (1 <= mi)%nat ->
+      (exists Q, NoDup Q /\ quorum_of (map n_id (sy_nodes σ1)) <= N.of_nat (length Q) /\
+                 forall v, In v Q ->
+                   v = n_id a \/
+                   exists m idx h, In m (sy_soup σ1) /\ m_from m = v /\ m_term m = p_term (n_p a) /\
+                                   m_body m = AppEntsResp true idx h /\ (mi <= N.to_nat idx)%nat) ->
+      forall b, In b (sy_nodes σ2) -> n_role b = Leader -> p_term (n_p a) < p_term (n_p b) ->
+        firstn mi (p_log (n_p b)) = firstn mi (p_log (n_p a)).
+Proof. exact Raft.CompletenessVote.leader_completeness_quorum_sys. Qed.
+Print Assumptions leader_completeness_quorum_acknowledged.
+
+(* [FULL] non-vacuity of leader_completeness_quorum_acknowledged: in the two-node run node 1 leads term 2 and entry 2 of term 2 is
+   acknowledged by both nodes; node 2 then times out, campaigns for term 3, receives the vote of node 1 and becomes leader
+   of term 3; every hypothesis of the theorem holds for the old leader at the first moment and the new leader at the second *)
+Theorem leader_completeness_nonvacuous :
+  exists σ0 σ1 σ2 sched1 sched2 a b e,
+    linit σ0 /\
+    run sys sys_event (lstep (length (sy_nodes σ0)) [1; 2] 5) σ0 sched1 σ1 /\
+    run sys sys_event (lstep (length (sy_nodes σ0)) [1; 2] 5) σ1 sched2 σ2 /\
+    In a (sy_nodes σ1) /\ n_role a = Leader /\ nth_error (p_log (n_p a)) (2 - 1) = Some e /\ e_term e = p_term (n_p a) /\
+    (exists Q, NoDup Q /\ quorum_of (map n_id (sy_nodes σ1)) <= N.of_nat (length Q) /\
+               forall v, In v Q ->
+                 v = n_id a \/
+                 exists m idx h, In m (sy_soup σ1) /\ m_from m = v /\ m_term m = p_term (n_p a) /\
+                                 m_body m = AppEntsResp true idx h /\ (2 <= N.to_nat idx)%nat) /\
+    In b (sy_nodes σ2) /\ n_role b = Leader /\ p_term (n_p a) < p_term (n_p b) /\ n_id a <> n_id b.
+Proof. exact Raft.CompletenessExample.leader_completeness_nonvacuous. Qed.
+Print Assumptions leader_completeness_nonvacuous.
+
+(* [FULL] clause 3, leader completeness in terms of commit indices, same system and restricted alphabet as log_matching, nodes start with
+   commit index 0 and nothing handed to the state machine. Two moments of one run: whatever a node a has committed at the
+   first moment, that is the first n_commit entries of its log, whether it committed them as leader by counting match
+   indices or as follower from leaderCommit, is at every later moment in the log of every node b that is leader of a
+   term greater than a's term, entry for entry; and the commit index never exceeds the log. Proved from
+   leader_completeness_quorum_acknowledged through the invariant that every commit index, every leaderCommit of an AppEnts in
+   the soup and every matchIndex of a leader's peers table is backed by acknowledgements of a quorum, with the counting
+   lemma for findMajorityIndex *)
+Theorem leader_completeness :
+  forall (bm : list nid) (be : N) (σ0 σ1 σ2 : sys) (sched1 sched2 : list sys_event),
+    cinit σ0 ->
+    run sys sys_event (lstep (length (sy_nodes σ0)) bm be) σ0 sched1 σ1 ->
+    run sys sys_event (lstep (length (sy_nodes σ0)) bm be) σ1 sched2 σ2 ->
+    forall a b,
+      In a (sy_nodes σ1) -> In b (sy_nodes σ2) -> n_role b = Leader -> p_term (n_p a) < p_term (n_p b) ->
+      (N.to_nat (n_commit a) <= length (p_log (n_p a)))%nat /\
+      firstn (N.to_nat (n_commit a)) (p_log (n_p b)) = firstn (N.to_nat (n_commit a)) (p_log (n_p a)).
+Proof. exact Raft.CompletenessCommit.leader_completeness_sys. Qed.
+Print Assumptions leader_completeness.
+
+(* [FULL] clause 4, state machine safety, same system and restricted alphabet: the entries handed to TakeNewlyCommitted by any two nodes at
+   any two moments of a run, the second reached from the first by any further schedule, that have the same index are the
+   same entry with the same term, type and payload *)
+Theorem state_machine_safety :
+  forall (bm : list nid) (be : N) (σ0 σ1 σ2 : sys) (sched1 sched2 : list sys_event),
+    cinit σ0 ->
+    run sys sys_event (lstep (length (sy_nodes σ0)) bm be) σ0 sched1 σ1 ->
+    run sys sys_event (lstep (length (sy_nodes σ0)) bm be) σ1 sched2 σ2 ->
+    forall a b x y,
+      In a (sy_nodes σ1) -> In b (sy_nodes σ2) -> In x (n_commits a) -> In y (n_commits b) ->
+      e_index x = e_index y -> x = y.
+Proof. exact Raft.CompletenessCommit.state_machine_safety_sys. Qed.
+Print Assumptions state_machine_safety.
+
+(* [FULL] clause 4, a committed entry is never truncated, same system and restricted alphabet: no step of a reachable state, including a step
+   that delivers a stale or conflicting AppEnts, crashes after the truncation or restarts the node, removes or changes one
+   of the first n_commit entries of the touched node's log *)
+Theorem committed_entry_never_truncated :
+  forall (bm : list nid) (be : N) (σ0 σ σ' : sys) (sched : list sys_event) (e : sys_event),
+    cinit σ0 ->
+    run sys sys_event (lstep (length (sy_nodes σ0)) bm be) σ0 sched σ ->
+    lstep (length (sy_nodes σ0)) bm be σ e σ' ->
+    forall a a', In a (sy_nodes σ) -> In a' (sy_nodes σ') -> n_id a' = n_id a ->
+      firstn (N.to_nat (n_commit a)) (p_log (n_p a')) = firstn (N.to_nat (n_commit a)) (p_log (n_p a)).
+Proof. exact Raft.CompletenessCommit.committed_never_truncated_sys. Qed.
+Print Assumptions committed_entry_never_truncated.
+
+(* [FULL] non-vacuity of leader_completeness: the old leader of term 2 has commit index 2; after the leader change of
+   leader_completeness_nonvacuous the new leader of term 3 is a different node *)
+Theorem leader_completeness_commit_nonvacuous :
+  exists σ0 σ1 σ2 sched1 sched2 a b,
+    cinit σ0 /\
+    run sys sys_event (lstep (length (sy_nodes σ0)) [1; 2] 5) σ0 sched1 σ1 /\
+    run sys sys_event (lstep (length (sy_nodes σ0)) [1; 2] 5) σ1 sched2 σ2 /\
+    In a (sy_nodes σ1) /\ In b (sy_nodes σ2) /\ n_role b = Leader /\ p_term (n_p a) < p_term (n_p b) /\
+    n_commit a = 2 /\ n_id a <> n_id b.
+Proof. exact Raft.CommitExample.leader_completeness_commit_nonvacuous. Qed.
+Print Assumptions leader_completeness_commit_nonvacuous.
+
+(* [FULL] non-vacuity of state_machine_safety: leader and follower of the two-node run hand the entry of index 2 to their state machines
+   at two different moments *)
+Theorem state_machine_safety_nonvacuous :
+  exists σ0 σ1 σ2 sched1 sched2 a b x y,
+    cinit σ0 /\
+    run sys sys_event (lstep (length (sy_nodes σ0)) [1; 2] 5) σ0 sched1 σ1 /\
+    run sys sys_event (lstep (length (sy_nodes σ0)) [1; 2] 5) σ1 sched2 σ2 /\
+    In a (sy_nodes σ1) /\ In b (sy_nodes σ2) /\ In x (n_commits a) /\ In y (n_commits b) /\
+    e_index x = e_index y /\ e_index x = 2 /\ n_id a <> n_id b.
+Proof. exact Raft.CommitExample.state_machine_safety_nonvacuous. Qed.
+Print Assumptions state_machine_safety_nonvacuous.
+
+(* [FULL] non-vacuity of committed_entry_never_truncated: a step of the leader with commit index 2 whose log grows from 2 to 3 entries *)
+Theorem committed_entry_never_truncated_nonvacuous :
+  exists σ0 σ σ' sched e a a',
+    cinit σ0 /\ run sys sys_event (lstep (length (sy_nodes σ0)) [1; 2] 5) σ0 sched σ /\
+    lstep (length (sy_nodes σ0)) [1; 2] 5 σ e σ' /\
+    In a (sy_nodes σ) /\ In a' (sy_nodes σ') /\ n_id a' = n_id a /\ n_commit a = 2 /\
+    length (p_log (n_p a)) = 2%nat /\ length (p_log (n_p a')) = 3%nat.
+Proof. exact Raft.CommitExample.committed_never_truncated_nonvacuous. Qed.
+Print Assumptions committed_entry_never_truncated_nonvacuous.
+
 (* NOT YET PROVED (statements kept visible; listed in props/C02.json not_yet_proved):
-   clause 3  leader_completeness : an entry, once committed, is in the log (or snapshot) of every later leader
-             (proved so far: append_entries_are_leader_log_slices_partial, leader_completeness_partial_ack_matches_leader_log,
-             log_terms_bounded_and_monotone_partial and the node-level mechanism theorems above);
-   clause 4  state_machine_safety : no two nodes hand different entries at the same index to TakeNewlyCommitted
-             (proved so far: state_machine_safety_partial_same_index_and_term; missing: equal index implies equal term);
-   log_matching across snapshot installation / log trim and across AddNode/RemoveNode;
-   commit_le_last as a reachable-state invariant;
-   and the extension of election_safety to AddNode/RemoveNode (quorums of Members and Members +/- 1 intersect).
+   log_matching, leader_completeness and state_machine_safety across snapshot installation / log trim and across
+   AddNode/RemoveNode (the proved theorems exclude SnapshotDone, AddNode, RemoveNode from the schedule);
+   the extension of election_safety to AddNode/RemoveNode (quorums of Members and Members +/- 1 intersect).
    On the real code all four clauses are evaluated after every event by the monitors of the Go simulation. *)
